@@ -1,4 +1,5 @@
 import GffProofs.Props.C11
+import GffProofs.Props.C11Sql
 open GffProofs.C11
 #print axioms query_perm_filter
 #print axioms query_unordered_in_input_order
@@ -12,3 +13,23 @@ open GffProofs.C11
 #print axioms count_all_eq_length
 #print axioms featuretypes_exact
 #print axioms seqids_exact
+#print axioms GffProofs.C11Sql.lockstep_count
+#print axioms GffProofs.C11Sql.lockstep
+#print axioms GffProofs.C11Sql.lockstep_text
+#print axioms GffProofs.C11Sql.lockstep_relation
+#print axioms GffProofs.C11Sql.lockstep_region
+#print axioms GffProofs.C11Sql.lockstep_general
+#print axioms GffProofs.C11Sql.lockstep_count_relation
+#print axioms GffProofs.C11Sql.lockstep_count_region
+#print axioms GffProofs.C11Sql.makeQuery_text
+#print axioms GffProofs.C11Sql.relation_text
+#print axioms GffProofs.C11Sql.region_text
+#print axioms GffProofs.C11Sql.count_text
+#print axioms GffProofs.C11Sql.eval_makeQuery_rows
+#print axioms GffProofs.C11Sql.eval_makeQuery_eq_runQuery
+#print axioms GffProofs.C11Sql.eval_relation_eq_runRelation
+#print axioms GffProofs.C11Sql.eval_region_eq_region
+#print axioms GffProofs.C11Sql.eval_count_eq_countFeatures
+#print axioms GffProofs.C11Sql.eval_featuretypes
+#print axioms GffProofs.C11Sql.eval_seqids
+#print axioms GffProofs.C11Sql.toQuery_defined
